@@ -5,7 +5,7 @@
 From Coq Require Import List Arith Permutation ZArith.
 From Coq Require Import Sorted.
 From TLV Require Import Base.Shape Base.PyList Base.Tensor Model.Base Model.BaseExt
-  Proofs.BaseProofs Proofs.BaseProofs2 Proofs.BaseProofs3 Proofs.BaseProofs4 Proofs.BaseProofs5 Proofs.BaseProofs6.
+  Proofs.BaseProofs Proofs.BaseProofs2 Proofs.BaseProofs3 Proofs.BaseProofs4 Proofs.BaseProofs5 Proofs.BaseProofs6 Proofs.BaseProofs7.
 Import ListNotations.
 
 Theorem C01_fold_unfold : forall (A : Type) (d : A) (t : tensor A) (m : nat),
@@ -239,6 +239,17 @@ Example C01_nonvacuous_partial_layout :
   get 0 (mk [2;6;2] [0;1;4;5;8;9;2;3;6;7;10;11;12;13;16;17;20;21;14;15;18;19;22;23]) ([1] ++ [1 * 3 + 2] ++ [0]) = get 0 t [1;2;1;0] /\
   partial_unfold 0 (mk [2;0;3] []) 1 1 0 false = Ok (mk [2;3;0] []) /\ partial_unfold 0 (mk [2;0;3] []) 0 1 0 false = Err.
 Proof. cbv zeta. unfold wf, ndim. cbn [shape data]. repeat split; try (vm_compute; reflexivity); vm_compute; auto with arith. Qed.
+
+Theorem C01_fold_ok_iff : forall (A : Type) (d : A) (u : tensor A) (m : nat) (s : list nat),
+  (exists t, fold d u m s = Ok t) <-> m < length s /\ prod s = prod (shape u).
+Proof. exact @fold_ok_iff. Qed.
+Print Assumptions C01_fold_ok_iff.
+
+Theorem C01_matricize_ok_iff : forall (A : Type) (d : A) (t : tensor A) (rows cols : list nat),
+  (exists u, matricize d t rows (Some cols) = Ok u) <->
+  (length (rows ++ cols) = ndim t /\ NoDup (rows ++ cols) /\ (forall k, In k (rows ++ cols) -> k < ndim t)).
+Proof. exact @matricize_ok_iff. Qed.
+Print Assumptions C01_matricize_ok_iff.
 
 (* ---------- "no entry is rounded or re-typed": the functions commute with every entry-wise map ---------- *)
 Theorem C01_naturality : forall (A B : Type) (f : A -> B) (d : A) (t : tensor A),
